@@ -324,7 +324,16 @@ class LocalStorageBackend(StorageBackend):
         self.write_file(path, content)  # Uses atomic write
 
     def exists(self, path: str) -> bool:
+        """Existence of an exact file; directories only when written as such.
+
+        Same contract as S3StorageBackend.exists(): 'data/x.parquet' must not
+        answer True merely because a DIRECTORY of that name exists (a missing
+        data file would pass validation); only a trailing '/' asks about a
+        directory.
+        """
         full_path = self._resolve_path(path)
+        if os.path.isdir(full_path):
+            return path.endswith("/") or path.endswith(os.sep)
         return os.path.exists(full_path)
 
     def list_files(self, prefix: str) -> List[str]:
